@@ -27,6 +27,10 @@ let q_parse_op s = match sp '.' s with
   | ["dc"; i] -> DefCtor (ni (ios i))
   | ["vo"] -> VecPop
   | ["ve"; k] -> VecErase (ni (ios k))
+  (* the payload constructor throws inside make_quaint: assigned to pool[i] (mx) or pushed into the vector (vx) — either way
+     the expression never yields a pointer *)
+  | ["mx"; i; t] -> MakeThrows (ni (ios i), ni (ios t))
+  | ["vx"; t] -> MakeThrows (ni 0, ni (ios t))
   | _ -> failwith "qop"
 let q_is_adopt (_ : string) = false   (* no wire operation needs an existing pointer object beyond q_applicable *)
 (* applicability of a wire operation: the adopting assignment needs an existing pointer object *)
@@ -48,7 +52,7 @@ let model_q n ops =
   let parts = List.map (fun (o, adopt) ->
       let a = q_app !st (o, adopt) in
       if a then st := q_step !st o;
-      (if a then "ok" else "skip") ^ "|" ^ q_obs_state !st) (q_parse_ops ops) in
+      (if a then (match o with MakeThrows _ -> "throw" | _ -> "ok") else "skip") ^ "|" ^ q_obs_state !st) (q_parse_ops ops) in
   String.concat ";" (parts @ ["fin|" ^ q_obs_state (q_finish !st)])
 
 (* observation -> a qstate as far as it is observable (the type remembered by a deleter is not) *)
@@ -86,8 +90,10 @@ let oracle_q n ops obs =
           if k < List.length ops then begin
             let o = List.nth ops k in
             let app = q_app !prev (List.nth wops k) in
-            r = (if app then "ok" else "skip")
-            && (app || (st.heap = !prev.heap && st.pool = !prev.pool && st.vec = !prev.vec))
+            let thrown = (match o with MakeThrows _ -> true | _ -> false) in
+            r = (if app then (if thrown then "throw" else "ok") else "skip")
+            (* a skipped operation, and a make_quaint whose constructor threw, create nothing and destroy nothing *)
+            && ((app && not thrown) || (st.heap = !prev.heap && st.pool = !prev.pool && st.vec = !prev.vec))
             (* every object: destroyed at most once, by its creation type, iff not alive; alive iff exactly one owner *)
             && q_state_ok st && q_counters_ok st c d
             (* nothing forgotten, retyped, revived *)
@@ -200,9 +206,9 @@ let oracle_e ops obs =
 (* ================================================================= dl *)
 (* the world of the harness: file 0 = libvdl_a.so, 1 = libvdl_b.so, 2 = the program itself, >= 3 missing;
    symbol 0 = vdl_f (a, b), 1 = vdl_g (a, b AND, as a different function, the program), 2 = vdl_only_a (a),
-   3 = vdl_self (program), >= 4 missing *)
+   3 = vdl_self (program), 4 = vdl_null (a: DEFINED with the value NULL — found, never called), >= 5 missing *)
 let d_world = { lib_exists = (fun f -> inn f < 3);
-                sym_exists = (fun lib s -> let l = inn lib and s = inn s in (l < 2 && s < 2) || (l = 0 && s = 2) || (l = 2 && (s = 3 || s = 1))) }
+                sym_exists = (fun lib s -> let l = inn lib and s = inn s in (l < 2 && s < 2) || (l = 0 && (s = 2 || s = 4)) || (l = 2 && (s = 3 || s = 1))) }
 let d_fun lib s x = match lib, s with
   | 0, 0 -> x + 100 | 0, 1 -> 2 * x + 1 | 0, 2 -> x * x + 7
   | 1, 0 -> x + 200 | 1, 1 -> 3 * x + 2
@@ -270,6 +276,8 @@ let model_d n ops =
      | XDiag _ -> "?") in
   let parts = List.map (fun wop ->
       let s = (match wop with
+        | WOp (DCall (i, _), _) when (match slot_owner !xs.xd i with Some (OSym (Some _, _, s)) -> inn s = 4 | _ -> false) ->
+            "nullsym"     (* a symbol whose address is NULL exists and owns its library, but is never called *)
         | WOp (o, quiet) -> run_op o quiet
         | WScoped (i, t, f, sy, quiet) ->
             if not (slot_empty !xs.xd i && slot_empty !xs.xd t && i <> t) then "skip"
@@ -390,7 +398,7 @@ let oracle_d n ops obs =
                      | Some (OSym (Some h, _, _)) ->
                          (* an owning symbol can be called: the library of the function it holds is mapped *)
                          let lib = (match nth_error !prev.hs h with Some rr -> inn rr.hlib | None -> 99) in
-                         r = "call:" ^ string_of_int (d_fun lib names.(inn i) (inn x)) && unchanged
+                         (if names.(inn i) = 4 then r = "nullsym" else r = "call:" ^ string_of_int (d_fun lib names.(inn i) (inn x))) && unchanged
                      | _ -> r = "skip" && unchanged)
                 | DGet (i, j) when slot_empty !prev i && (match own j with Some (OLib _) -> true | _ -> false) ->
                     let h = (match own j with Some (OLib h) -> h | _ -> None) in
